@@ -356,7 +356,7 @@ def report_violation(ctx, sig, payload, nofail=False):
         if f["kind"] == "finding" and f["property"] == ctx.pid and f["sig"] == sig:
             if sig not in [k["sig"] for k in ctx.known]:
                 ctx.known.append({"sig": sig, "text": f["text"]})
-                print(f"KNOWN-FINDING: property={ctx.pid} {f['text']}", flush=True)
+                print(f"KNOWN-FINDING: {f['text']}", flush=True)
             return
     if any(v["sig"] == sig for v in ctx.violations) and len(ctx.violations) >= 1:
         # one replay per signature is enough
